@@ -88,6 +88,94 @@ template <class T> void propType(Ctx& c, int reps) {
     }
 }
 
+// ---- pointer layer: types holding shared_ptr (model: Model/SerialGraph.lean) ------------------------
+template <class T> std::string showLabelled(const T& v) { labels() = Labels{}; return Codec<T>::show(v, true); }
+
+template <class T> void corrGraph(Ctx& c, int reps) {
+    const std::string ty = Codec<T>::ty();
+    for (int i = 0; i < reps; ++i) {
+        GenCfg cfg; cfg.maxLen = (i % 7 == 6) ? 3 * c.maxLen : c.maxLen;
+        newGraphEpoch();
+        {
+            T x = Codec<T>::gen(c.rng, cfg);
+            Packer packer; Ser ser(packer);
+            ser.pack(x);
+            const std::string hex = ser.buffer().empty() ? "-" : ser.hex();
+            c.sink->emit("serial.gpack " + ty + " " + Codec<T>::show(x, false),
+                         "wt=1 " + std::to_string(ser.buffer().size()) + " " + hex);
+            {
+                T y{};
+                ser.unpack(y);
+                c.sink->emit("serial.gunpack " + ty + " " + hex,
+                             "ok " + showLabelled(y) + " " + std::to_string(ser.position()));
+            }
+            {
+                T z = Codec<T>::gen(c.rng, cfg);       // a stale target; may share pointees with x (same pools)
+                const std::string before = Codec<T>::show(z, false);
+                ser.unpack(z);
+                c.sink->emit("serial.gunpackinto " + ty + " " + before + " " + hex,
+                             "ok " + showLabelled(z) + " " + std::to_string(ser.position()));
+            }
+            c.sink->count("type." + ty);
+            c.sink->count("values");
+            c.sink->count("graph.values");
+            c.sink->count("bytes", static_cast<long>(ser.buffer().size()));
+        }
+        newGraphEpoch();
+    }
+}
+
+// the property's statement on pointer-holding values: the aliasing graph (labels) comes back, position
+// = size, re-pack has the same length, and the re-packed buffer unpacks to the same graph again
+template <class T> void propGraph(Ctx& c, int reps) {
+    const std::string ty = Codec<T>::ty();
+    for (int i = 0; i < reps; ++i) {
+        GenCfg cfg; cfg.maxLen = (i % 5 == 4) ? 4 * c.maxLen : c.maxLen;
+        newGraphEpoch();
+        {
+            T x = Codec<T>::gen(c.rng, cfg);
+            Packer packer; Ser ser(packer);
+            ser.pack(x);
+            const std::vector<char> buf = ser.buffer();
+            const size_t posPack = ser.position();
+            T y{};
+            ser.unpack(y);
+            const size_t posUnpack = ser.position();
+            const std::string sx = showLabelled(x), sy = showLabelled(y);
+            const std::string key = "combinator." + ty;
+            if (posPack != buf.size()) c.plog->fail(key, "PACK left position " + std::to_string(posPack) + " in a buffer of " + std::to_string(buf.size()) + " (PACKSIZE disagrees with PACK) value=" + sx);
+            else if (posUnpack != buf.size()) c.plog->fail(key, "UNPACK consumed " + std::to_string(posUnpack) + " of " + std::to_string(buf.size()) + " bytes value=" + sx);
+            else if (sx != sy) c.plog->fail(key, "object graph differs after round trip (labels = pointer identity): packed " + sx + " unpacked " + sy);
+            else {
+                Packer p2; Ser ser2(p2);
+                ser2.pack(y);
+                T z{};
+                if (ser2.buffer().size() != buf.size()) c.plog->fail(key, "re-packed length " + std::to_string(ser2.buffer().size()) + " != " + std::to_string(buf.size()) + " value=" + sx);
+                else {
+                    ser2.unpack(z);
+                    const std::string sz = showLabelled(z);
+                    if (ser2.position() != buf.size()) c.plog->fail(key, "UNPACK of the re-packed buffer consumed " + std::to_string(ser2.position()) + " of " + std::to_string(buf.size()) + " value=" + sx);
+                    else if (sz != sx) c.plog->fail(key, "re-packed buffer means another graph: " + sz + " vs " + sx);
+                    else c.plog->ok();
+                }
+            }
+            c.pstats["combinator"]++;
+            c.pstats["combinator.graph"]++;
+        }
+        newGraphEpoch();
+    }
+}
+
+#define SERIAL_GRAPH_MENU(X) \
+    X(std::shared_ptr<int>) X(std::shared_ptr<std::string>) X(std::shared_ptr<Rec>) X(std::shared_ptr<std::shared_ptr<int>>) \
+    X(std::vector<std::shared_ptr<std::string>>) X(std::pair<std::shared_ptr<int>, std::shared_ptr<int>>) \
+    X(std::optional<std::shared_ptr<std::string>>) X(std::vector<std::optional<std::shared_ptr<double>>>) \
+    X(std::map<std::string, std::shared_ptr<Rec>>) X(std::unordered_map<std::string, std::shared_ptr<int>>) \
+    X(std::tuple<int, std::shared_ptr<Rec>, std::vector<std::shared_ptr<Rec>>>) \
+    X(std::shared_ptr<std::vector<std::shared_ptr<int>>>) X(std::map<int, std::vector<std::shared_ptr<std::string>>>) \
+    X(WellLike) X(std::shared_ptr<WellLike>) X(std::vector<WellLike>) X(std::unordered_map<std::string, std::shared_ptr<WellLike>>) \
+    X(StepLike) X(std::vector<StepLike>) X(std::vector<std::shared_ptr<StepLike>>)
+
 // The menu of real C++ types.
 
 #define SERIAL_MENU(X) \
@@ -134,6 +222,10 @@ int main(int argc, char** argv) {
 #define X(...) corrType<__VA_ARGS__>(c, reps);
         SERIAL_MENU(X)
 #undef X
+        sink.emit("serial.gconsts", std::to_string(sizeof(std::uintptr_t)));
+#define X(...) corrGraph<__VA_ARGS__>(c, reps);
+        SERIAL_GRAPH_MENU(X)
+#undef X
         sink.writeStats(outdir + "/stats.json");
         return 0;
     }
@@ -144,6 +236,9 @@ int main(int argc, char** argv) {
         c.maxLen = 5;
 #define X(...) propType<__VA_ARGS__>(c, reps);
         SERIAL_MENU(X)
+#undef X
+#define X(...) propGraph<__VA_ARGS__>(c, reps);
+        SERIAL_GRAPH_MENU(X)
 #undef X
         so::runObjects(c.rng, plog, c.pstats, thorough, outdir);
         std::ofstream f(outdir + "/prop_stats.json");
